@@ -4,7 +4,7 @@
 cd /verif
 names=${@:-$(ls seeded)}
 for n in $names; do
-  if ! git -C /repo apply --check seeded/$n/patch.diff 2>/dev/null; then echo "DOES-NOT-APPLY $n"; continue; fi
+  if ! git -C /repo apply --check /verif/seeded/$n/patch.diff 2>/dev/null; then echo "DOES-NOT-APPLY $n"; continue; fi
   echo $n
 done | grep -v DOES-NOT-APPLY | xargs -P 3 -I{} bash -c 'pid=$(echo {} | cut -d- -f1); /verif/tools/seed_validate.py /verif/seeded/{} {} $pid > /verif/work/sv-{}.txt 2>&1; /venv/bin/python - /verif/work/sv-{}.txt {} <<P
 import json,sys
@@ -12,4 +12,4 @@ try: d=json.load(open(sys.argv[1]))
 except Exception: print(sys.argv[2],"UNPARSABLE"); sys.exit()
 print(sys.argv[2],"valid=",d.get("valid")," ".join(f"{p}:{c[\"caught\"]}" for p,c in d.get("checks",{}).items()))
 P'
-for n in $names; do git -C /repo apply --check seeded/$n/patch.diff 2>/dev/null || echo "DOES-NOT-APPLY $n"; done
+for n in $names; do git -C /repo apply --check /verif/seeded/$n/patch.diff 2>/dev/null || echo "DOES-NOT-APPLY $n"; done
